@@ -20,6 +20,13 @@ type C09Payload struct {
 	CompWhen  string             `json:"comp_when,omitempty"`
 	Fd1Faults []simrt.WriteFault `json:"fd1_faults,omitempty"`
 	Fd2Faults []simrt.WriteFault `json:"fd2_faults,omitempty"`
+	// EnvLate (with First): the environment variable of an env-unconvertible fault
+	// gets its bad value only after the first parse (the parser has applied the
+	// option's defaults once already).
+	EnvLate bool `json:"env_late,omitempty"`
+	// LateGroup (with First): this top-level group is added with AddGroup only
+	// after the first parse.
+	LateGroup string `json:"late_group,omitempty"`
 }
 
 type propC09 struct{}
@@ -31,7 +38,7 @@ func c09Cfg() *DeclCfg {
 		Kinds: []string{"bool", "bool", "int", "int64", "uint", "float64", "string", "string", "duration", "[]int", "[]string", "map[string]int", "map[string]string",
 			"*int", "*bool", "func()", "func(string)", "func(int) error", "func() error", "um", "vv", "[]bool"},
 		MinOpts: 0, MaxOpts: 3, MaxGroups: 1, MaxSub: 1, MaxCmds: 4, MaxDepth: 4, Exec: true,
-		Env: true, Defaults: true, Required: true, Choices: true, Optional: true, Hidden: true, Pos: true, Namespaces: true, Aliases: true, Base: true,
+		Env: true, Defaults: true, Required: true, Choices: true, Optional: true, Hidden: true, Pos: true, Namespaces: true, Aliases: true, Base: true, MultiByte: true,
 		ParserOpts: []uint{0, optHelpFlag, optHelpFlag | optPassDoubleDash, optHelpFlag | optPrintErrors | optPassDoubleDash, optHelpFlag | optIgnoreUnknown,
 			optPassAfterNonOption | optHelpFlag, optHelpFlag | optPrintErrors, optPassDoubleDash | optPassAfterNonOption | optHelpFlag | optPrintErrors},
 	}
@@ -59,6 +66,8 @@ func (propC09) Gen(r *Rng, idx int, tier string) *Scenario {
 	}
 	if hr.Chance(1, 6) {
 		sc.Decl.UnknownHandler = "drop"
+	} else if hr.Chance(1, 8) {
+		sc.Decl.UnknownHandler = "fail" // the handler rejects the option with an error of its own
 	}
 	sc.Decl.Reenter = hr.Chance(1, 4)
 	sc.Decl.CompHandler = hr.Chance(1, 2)
@@ -68,6 +77,11 @@ func (propC09) Gen(r *Rng, idx int, tier string) *Scenario {
 	fr := r.Fork("faults")
 	if fr.Chance(1, 5) {
 		p.First = genPlan(r.Fork("first"), sc.Decl)
+		lr := r.Fork("late")
+		p.EnvLate = lr.Bool()
+		if len(sc.Decl.Groups) > 0 && lr.Chance(1, 3) {
+			p.LateGroup = sc.Decl.Groups[lr.Intn(len(sc.Decl.Groups))].Name
+		}
 	}
 	// the fault-free twin tells which callees run
 	twin := c09Run(sc, p.Plan.argv(), nil, nil, "")
@@ -159,6 +173,9 @@ func applyRaw(argv []string, f ArgFault) []string {
 	return argv
 }
 
+// noLate (set around a comparison run): the late group is declared from the start.
+var noLate bool
+
 func c09Run(sc *Scenario, argv []string, callee []CalleeFault, env map[string]string, completion string) *Outcome {
 	when := ""
 	if sc.C09 != nil {
@@ -184,7 +201,26 @@ func c09Run(sc *Scenario, argv []string, callee []CalleeFault, env map[string]st
 		s2.Ops = append(s2.Ops, Op{Kind: "unsetenv", Key: "GO_FLAGS_COMPLETION"})
 	}
 	if sc.C09 != nil && sc.C09.First != nil {
+		if sc.C09.LateGroup != "" && !noLate {
+			d2 := *sc.Decl
+			d2.LateGroups = []string{sc.C09.LateGroup}
+			s2.Decl = &d2
+		}
+		if sc.C09.EnvLate {
+			// the fault's variables appear only after the first parse
+			for k := range env {
+				delete(s2.World.Env, k)
+			}
+		}
 		s2.Ops = append(s2.Ops, Op{Kind: "parse", Argv: bstrs(sc.C09.First.argv())})
+		if sc.C09.LateGroup != "" && !noLate {
+			s2.Ops = append(s2.Ops, Op{Kind: "addgroup"})
+		}
+		if sc.C09.EnvLate {
+			for _, k := range sortedKeys(env) {
+				s2.Ops = append(s2.Ops, Op{Kind: "setenv", Key: k, Text: BStr(env[k])})
+			}
+		}
 	}
 	op := Op{Kind: "parse", Argv: bstrs(argv)}
 	if sc.C09 != nil && (len(callee) > 0 || len(env) > 0 || completion != "" || true) {
@@ -350,6 +386,138 @@ func c09Oracle(v *Verdict, d *DeclSpec, r *OpResult, target string, label string
 	}
 }
 
+// c09Enforced: fault kinds whose documented outcome is a rejection on every tree
+// that keeps the library's documented interface (the generator sets Expect only
+// where that outcome is certain for the declaration at hand). Left out on purpose:
+// flag-with-arg and bad-quote, where accepting the text would be a legitimate
+// extension of the value syntax.
+var c09Enforced = map[string]bool{"unknown-long": true, "unknown-short": true, "unknown-in-cluster": true, "delete-arg": true, "bad-value": true,
+	"delete-required": true, "delete-required-pos": true, "bad-pos-value": true, "delete-cmd": true, "misspell-cmd": true, "help": true, "env-unconvertible": true}
+
+func planMentions(p *Plan, opt string) bool {
+	for _, t := range p.Toks {
+		if t.Opt == opt || t.Role == "cluster" {
+			return true
+		}
+	}
+	return false
+}
+
+// faultStillExpected re-derives, from the declaration as it is now (a minimised
+// scenario may have lost attributes the generator relied on), whether the fault's
+// documented outcome is still a rejection. Errs towards "no".
+func faultStillExpected(d *DeclSpec, p *Plan, f ArgFault, argv []string) bool {
+	if f.Kind != "env-unconvertible" && mustJSON(argv) == mustJSON(p.argv()) {
+		return false // the fault changes nothing (any more)
+	}
+	ois := map[string]optInfo{}
+	for _, oi := range optInfos(d) {
+		ois[oi.Path] = oi
+	}
+	onChain := func(oi optInfo) bool {
+		if len(oi.CmdPath) > len(p.Chain) {
+			return false
+		}
+		for i := range oi.CmdPath {
+			if oi.CmdPath[i] != p.Chain[i] {
+				return false
+			}
+		}
+		return true
+	}
+	switch f.Kind {
+	case "unknown-long", "unknown-short", "unknown-in-cluster":
+		return !unknownAccepted(d) || (d.UnknownHandler == "fail" && d.Options&optIgnoreUnknown == 0)
+	case "help":
+		return d.Options&optHelpFlag != 0
+	case "delete-required":
+		oi, ok := ois[f.Opt]
+		return ok && oi.O.Required && onChain(oi)
+	case "delete-cmd", "misspell-cmd":
+		if f.Kind == "misspell-cmd" && d.Options&optPassAfterNonOption != 0 {
+			return false
+		}
+		// every command of the chain must still exist, and the parent of the
+		// affected word must still require a subcommand
+		cs, need := d.Commands, !d.SubOptional
+		k := len(p.Chain) - 1
+		if f.Kind == "misspell-cmd" {
+			k = 0
+			n := 0
+			for i, t := range p.Toks {
+				if t.Role == "cmd" {
+					if i == f.Pos {
+						k = n
+					}
+					n++
+				}
+			}
+		}
+		for i := 0; i <= k && i < len(p.Chain); i++ {
+			c := findCmd(cs, p.Chain[i])
+			if c == nil {
+				return false
+			}
+			if i == k {
+				return need
+			}
+			need = !c.SubOptional
+			cs = c.Commands
+		}
+		return false
+	case "bad-value":
+		oi, ok := ois[f.Opt]
+		if !ok || !onChain(oi) {
+			return false
+		}
+		if f.Expect == "invalid choice" {
+			return len(oi.O.Choices) > 0
+		}
+		b := baseKind(oi.O.Kind)
+		return strings.Contains(b, "int") || strings.Contains(b, "float") || b == "duration" || b == "um"
+	case "delete-arg":
+		oi, ok := ois[f.Opt]
+		return ok && onChain(oi) && !isBoolFlag(oi.O.Kind) && !oi.O.Optional
+	case "env-unconvertible":
+		oi, ok := ois[f.Opt]
+		if ok && oi.O.Base != 0 && f.EnvVal == "12x" {
+			return false // a number in a base beyond 33
+		}
+		return ok && oi.O.Env != "" && envFullOf(d, oi) == f.EnvKey
+	case "delete-required-pos":
+		return posDeletionRequired(d, p)
+	case "bad-pos-value":
+		// the word still stands where an integer positional field is filled
+		if f.Pos >= len(p.Toks) || p.Toks[f.Pos].Role != "pos" || p.Toks[f.Pos].Kind != "int" {
+			return false
+		}
+		n := 0
+		for _, t := range p.Toks[:f.Pos] {
+			if t.Role == "pos" {
+				n++
+			}
+		}
+		var own *GroupSpec
+		if len(p.Chain) == 0 {
+			own = d.Root
+		} else {
+			cs := d.Commands
+			for i, name := range p.Chain {
+				c := findCmd(cs, name)
+				if c == nil {
+					return false
+				}
+				if i == len(p.Chain)-1 {
+					own = c.Own
+				}
+				cs = c.Commands
+			}
+		}
+		return own != nil && n < len(own.Pos) && own.Pos[n].Kind == "int"
+	}
+	return false
+}
+
 func (propC09) Judge(sc *Scenario) *Verdict {
 	v := &Verdict{OK: true}
 	p := sc.C09
@@ -406,12 +574,41 @@ func (propC09) Judge(sc *Scenario) *Verdict {
 		return v
 	}
 	tr := lastOp(twin)
+	if planConsistent(d, p.Plan) {
+		v.stat("probe.plan-consistent")
+	} else {
+		v.stat("probe.plan-inconsistent")
+	}
 	if p.First != nil {
 		// the earlier parse on the same parser is itself a fault-free line
 		fr := &twin.Ops[0]
-		if fr.Op == "parse" && fr.Err == "" && !fr.Exit && fr.Panic == "" {
+		if fr.Op == "parse" && fr.Err == "" && !fr.Exit && fr.Panic == "" && p.LateGroup == "" {
+			// (with a group still to be added the first line was not generated for the declaration it meets)
 			c09Oracle(v, d, fr, p.First.ExecPath, "first parse on a reused parser", p.First.argv(), false)
 		}
+	}
+	if p.First != nil && p.LateGroup != "" && (tr.Err != "" || tr.Panic != "") && !tr.Exit && !tr.Budget {
+		// the same history with the group declared from the start: if the line is
+		// accepted and executed there, completing the declaration after the first
+		// parse must not make it fail
+		noLate = true
+		ref := c09Run(sc, p.Plan.argv(), nil, nil, "")
+		noLate = false
+		v.Evals++
+		if rr := lastOp(ref); ref.HarnessPanic == "" && rr.Err == "" && rr.Panic == "" && !rr.Exit && !rr.Budget && len(ref.Ops) > 0 && ref.Ops[0].Err == "" && twin.Ops[0].Err == "" {
+			v.failAttr("C09", "c09:not-executed", fmt.Sprintf("group %q was added with AddGroup after a first (successful) parse; the valid line argv=%q is then rejected (%s/%s %q) although the same history with the group declared from the start accepts and executes it",
+				p.LateGroup, p.Plan.argv(), tr.Err, tr.ErrType, clip(string(tr.Msg), 160)), map[string]string{"history": "late-group"})
+			sig("late-group")
+			return v
+		}
+	}
+	if (tr.Err != "" || tr.Panic != "") && !tr.Exit && !tr.Budget && p.First == nil && planConsistent(d, p.Plan) {
+		// the line was generated to be valid for this declaration (every spelling and
+		// arrangement it uses is a documented one): a fresh parser must accept it
+		v.failAttr("C09", "c09:valid-line-rejected", fmt.Sprintf("a valid command line is rejected, so its command does not run: argv=%q -> %s/%s %q panic=%q", p.Plan.argv(), tr.Err, tr.ErrType, clip(string(tr.Msg), 200), tr.Panic),
+			map[string]string{"err_type": tr.ErrType})
+		sig("valid-line-rejected")
+		return v
 	}
 	if tr.Err != "" || tr.Panic != "" || tr.Exit || tr.Budget {
 		v.NotJudged = "generated line not accepted"
@@ -467,6 +664,23 @@ func (propC09) Judge(sc *Scenario) *Verdict {
 		}
 	} else {
 		c09Oracle(v, d, fr, target, "faulted line", argv, p.Completion != "")
+	}
+	// A line carrying one fault of a kind the statement lists - unknown option, bad
+	// or missing value, missing required item, unknown or missing command, help
+	// request - for which the documented behaviour is a rejection: whatever the
+	// parser made of it, no command may have run.
+	if len(p.Faults) == 1 && p.Faults[0].Callee == nil && p.Faults[0].Expect != "" && c09Enforced[p.Faults[0].Kind] && p.Completion == "" &&
+		(p.First == nil || (p.Faults[0].Kind == "env-unconvertible" && !planMentions(p.First, p.Faults[0].Opt))) && // (what an earlier parse on the same parser leaves behind - options that count as given - is not modelled)
+		faultStillExpected(d, p.Plan, p.Faults[0], argv) &&
+		fr.Err == "" && !fr.Exit && fr.Panic == "" && !fr.Budget && !fr.Inconclusive {
+		execs, handlers := execCalls(fr.Calls)
+		v.stat("probe.enforced-fault-accepted:" + p.Faults[0].Kind)
+		if len(execs)+len(handlers) > 0 {
+			f := p.Faults[0]
+			v.failAttr("C09", "c09:executed-despite-fault:"+f.Kind, fmt.Sprintf("the line carries a fault (%s %s%s; a valid line without it is %q; documented outcome: rejection as %q), yet ParseArgs returned no error and a command ran: argv=%q rest=%s calls=%s",
+				f.Kind, f.Text, f.Opt+f.EnvKey, p.Plan.argv(), f.Expect, argv, mustJSON(fr.Rest), mustJSON(append(append([]Call{}, handlers...), execs...))),
+				map[string]string{"fault": f.Kind})
+		}
 	}
 	for i := range o.Ops {
 		if o.Ops[i].Aliased != "" {
